@@ -156,6 +156,48 @@ func c09Calls(soft bool) []c09Call {
 type c09Fin struct {
 	Name string
 	Run  func(db *gorm.DB, soft bool, key int) *gorm.DB
+	// KEY PLACEMENT (round 3).  Where the primary key of "the model value" is handed over: through Model(..), through the
+	// value given to the finisher, through both (two distinct values), through one value used for both (Dest == Model),
+	// as the finisher's inline condition, or in a slice.  Placement finishers are enumerated with a non-zero key only (with
+	// a zero key they coincide with the plain ones).  Place tells the Lean statement machine which of
+	// callbacks/update.go ConvertToAssignments / callbacks/delete.go Delete / soft_delete.go SoftDeleteDeleteClause
+	// key blocks is concerned:  "" (Update: Model key; Delete: value key) | model | both | same | inline | value
+	KeyedOnly bool
+	Place     string
+}
+
+// c09Value: a record of the case's model type with key and (optionally) the new B
+func c09Value(soft bool, key int, b *int) interface{} {
+	if c09Kind == 2 {
+		return &WSoft2{ID: uint(key), B: b}
+	}
+	if soft {
+		return &WSoft{ID: uint(key), B: b}
+	}
+	return &WPlain{ID: uint(key), B: b}
+}
+
+// c09KeyedSlice: a slice model value carrying keys — in every record ("all"), in the last record only ("last"), in the
+// first record only ("first").
+// LATITUDE: callbacks/update.go ConvertToAssignments lets the LAST record decide whether the slice's keys become a
+// condition (`Model(&[]T{{ID: 3}, {}}).Update(..)` is rejected although a record carries a key, the reversed slice is
+// not); the property does not say which records of a mixed slice count, so "first" is used for Delete only (whose key
+// collection skips key-less records) and the mixed-slice Update is not judged.
+func c09KeyedSlice(soft bool, key int, variant string) interface{} {
+	k1, k2 := uint(key), uint(key+1)
+	switch variant {
+	case "last":
+		k1, k2 = 0, uint(key)
+	case "first":
+		k2 = 0
+	}
+	if c09Kind == 2 {
+		return &[]WSoft2{{ID: k1}, {ID: k2}}
+	}
+	if soft {
+		return &[]WSoft{{ID: k1}, {ID: k2}}
+	}
+	return &[]WPlain{{ID: k1}, {ID: k2}}
 }
 
 // c09Kind: the table used by a case — 0 plain, 1 soft-delete, 2 two soft-delete columns
@@ -191,46 +233,93 @@ func c09Table(soft bool) string {
 
 func c09Finishers() []c09Fin {
 	return []c09Fin{
-		{"Update", func(db *gorm.DB, soft bool, key int) *gorm.DB { return db.Model(c09Model(soft, key)).Update("b", 91) }},
-		{"Updates(map)", func(db *gorm.DB, soft bool, key int) *gorm.DB {
+		{Name: "Update", Run: func(db *gorm.DB, soft bool, key int) *gorm.DB { return db.Model(c09Model(soft, key)).Update("b", 91) }},
+		{Name: "Updates(map)", Run: func(db *gorm.DB, soft bool, key int) *gorm.DB {
 			return db.Model(c09Model(soft, key)).Updates(map[string]interface{}{"b": 91})
 		}},
-		{"Updates(struct)", func(db *gorm.DB, soft bool, key int) *gorm.DB {
+		{Name: "Updates(struct)", Run: func(db *gorm.DB, soft bool, key int) *gorm.DB {
 			v := 91
 			if soft {
 				return db.Model(c09Model(soft, key)).Updates(WSoft{B: &v})
 			}
 			return db.Model(c09Model(soft, key)).Updates(WPlain{B: &v})
 		}},
-		{"UpdateColumn", func(db *gorm.DB, soft bool, key int) *gorm.DB { return db.Model(c09Model(soft, key)).UpdateColumn("b", 91) }},
-		{"UpdateColumns", func(db *gorm.DB, soft bool, key int) *gorm.DB {
+		{Name: "UpdateColumn", Run: func(db *gorm.DB, soft bool, key int) *gorm.DB {
+			return db.Model(c09Model(soft, key)).UpdateColumn("b", 91)
+		}},
+		{Name: "UpdateColumns", Run: func(db *gorm.DB, soft bool, key int) *gorm.DB {
 			return db.Model(c09Model(soft, key)).UpdateColumns(map[string]interface{}{"b": 91})
 		}},
-		{"Delete", func(db *gorm.DB, soft bool, key int) *gorm.DB { return db.Delete(c09Model(soft, key)) }},
-		{"Delete(inline empty)", func(db *gorm.DB, soft bool, key int) *gorm.DB {
+		{Name: "Delete", Run: func(db *gorm.DB, soft bool, key int) *gorm.DB { return db.Delete(c09Model(soft, key)) }},
+		{Name: "Delete(inline empty)", Run: func(db *gorm.DB, soft bool, key int) *gorm.DB {
 			return db.Delete(c09Model(soft, key), map[string]interface{}{})
 		}},
 		// model values that are slices of key-less records (only meaningful with key == 0)
-		{"Update(slice model)", func(db *gorm.DB, soft bool, key int) *gorm.DB {
+		{Name: "Update(slice model)", Run: func(db *gorm.DB, soft bool, key int) *gorm.DB {
 			if key != 0 {
 				return db.Model(c09Model(soft, key)).Update("b", 91)
 			}
 			return db.Model(c09SliceModel(soft)).Update("b", 91)
 		}},
-		{"UpdateColumns(slice model)", func(db *gorm.DB, soft bool, key int) *gorm.DB {
+		{Name: "UpdateColumns(slice model)", Run: func(db *gorm.DB, soft bool, key int) *gorm.DB {
 			if key != 0 {
 				return db.Model(c09Model(soft, key)).UpdateColumns(map[string]interface{}{"b": 91})
 			}
 			return db.Model(c09SliceModel(soft)).UpdateColumns(map[string]interface{}{"b": 91})
 		}},
-		{"Delete(slice)", func(db *gorm.DB, soft bool, key int) *gorm.DB {
+		{Name: "Delete(slice)", Run: func(db *gorm.DB, soft bool, key int) *gorm.DB {
 			if key != 0 {
 				return db.Delete(c09Model(soft, key))
 			}
 			return db.Delete(c09SliceModel(soft))
 		}},
+		// ---- key placements (non-zero key): "a chain that does supply a condition is never rejected"
+		{Name: "Model(&keyed).Delete(&T{})", KeyedOnly: true, Place: "model", Run: func(db *gorm.DB, soft bool, key int) *gorm.DB {
+			return db.Model(c09Model(soft, key)).Delete(c09Model(soft, 0))
+		}},
+		{Name: "Model(&keyed).Delete(&otherKeyed)", KeyedOnly: true, Place: "both", Run: func(db *gorm.DB, soft bool, key int) *gorm.DB {
+			return db.Model(c09Model(soft, key)).Delete(c09Model(soft, key))
+		}},
+		{Name: "Model(m).Delete(m)", KeyedOnly: true, Place: "same", Run: func(db *gorm.DB, soft bool, key int) *gorm.DB {
+			m := c09Model(soft, key)
+			return db.Model(m).Delete(m)
+		}},
+		{Name: "Delete(&T{}, key)", KeyedOnly: true, Place: "inline", Run: func(db *gorm.DB, soft bool, key int) *gorm.DB {
+			return db.Delete(c09Model(soft, 0), key)
+		}},
+		{Name: "Delete(&T{}, []int{key})", KeyedOnly: true, Place: "inline", Run: func(db *gorm.DB, soft bool, key int) *gorm.DB {
+			return db.Delete(c09Model(soft, 0), []int{key})
+		}},
+		{Name: "Model(&T{}).Delete(&keyed)", KeyedOnly: true, Place: "", Run: func(db *gorm.DB, soft bool, key int) *gorm.DB {
+			return db.Model(c09Model(soft, 0)).Delete(c09Model(soft, key))
+		}},
+		{Name: "Delete(&[]T{{keyed},{}})", KeyedOnly: true, Place: "", Run: func(db *gorm.DB, soft bool, key int) *gorm.DB {
+			return db.Delete(c09KeyedSlice(soft, key, "first"))
+		}},
+		{Name: "Delete(&[]T{{},{keyed}})", KeyedOnly: true, Place: "", Run: func(db *gorm.DB, soft bool, key int) *gorm.DB {
+			return db.Delete(c09KeyedSlice(soft, key, "last"))
+		}},
+		{Name: "Model(&keyed).Delete(&[]T{{},{}})", KeyedOnly: true, Place: "model", Run: func(db *gorm.DB, soft bool, key int) *gorm.DB {
+			return db.Model(c09Model(soft, key)).Delete(c09SliceModel(soft))
+		}},
+		{Name: "Updates(&keyedValue) without Model", KeyedOnly: true, Place: "value", Run: func(db *gorm.DB, soft bool, key int) *gorm.DB {
+			v := 91
+			return db.Updates(c09Value(soft, key, &v))
+		}},
+		{Name: "Model(&keyed).Updates(&otherKeyed)", KeyedOnly: true, Place: "", Run: func(db *gorm.DB, soft bool, key int) *gorm.DB {
+			v := 91
+			return db.Model(c09Model(soft, key)).Updates(c09Value(soft, key, &v))
+		}},
+		{Name: "Model(&[]T{{keyed},{keyed}}).Update", KeyedOnly: true, Place: "", Run: func(db *gorm.DB, soft bool, key int) *gorm.DB {
+			return db.Model(c09KeyedSlice(soft, key, "all")).Update("b", 91)
+		}},
+		{Name: "Model(&[]T{{},{keyed}}).UpdateColumn", KeyedOnly: true, Place: "", Run: func(db *gorm.DB, soft bool, key int) *gorm.DB {
+			return db.Model(c09KeyedSlice(soft, key, "last")).UpdateColumn("b", 91)
+		}},
 	}
 }
+
+func (f c09Fin) isDelete() bool { return strings.Contains(f.Name, "Delete") }
 
 type c09Case struct {
 	Kind     int      `json:"model_kind"` // 0 plain, 1 soft-delete, 2 two soft-delete columns
@@ -532,12 +621,35 @@ func init() {
 			if key != 0 {
 				keyJ = append(keyJ, map[string]interface{}{"col": "`id`", "kind": "eq", "val": "scalar", "id": 1})
 			}
-			if strings.HasPrefix(fin.Name, "Delete") {
-				// the deleted value's key; the statement's Model (if any) is key-less
-				steps = append(steps, []interface{}{"fin", "delete", keyJ, false})
-				ops = append(ops, []interface{}{"stmt.run", softJ, []interface{}{}, allow != "off", steps})
+			none := []interface{}{}
+			if fin.isDelete() {
+				switch fin.Place {
+				case "model": // Model(&keyed).Delete(&T{}): only the `Dest != Model` block supplies the key
+					steps = append(steps, []interface{}{"fin", "delete", none, false})
+					ops = append(ops, []interface{}{"stmt.run", softJ, keyJ, allow != "off", steps})
+				case "both":
+					steps = append(steps, []interface{}{"fin", "delete", keyJ, false})
+					ops = append(ops, []interface{}{"stmt.run", softJ, keyJ, allow != "off", steps})
+				case "same":
+					steps = append(steps, []interface{}{"fin", "delete", keyJ, true})
+					ops = append(ops, []interface{}{"stmt.run", softJ, keyJ, allow != "off", steps})
+				case "inline": // the key is an inline condition: one more Where call, the values are key-less
+					if key != 0 {
+						steps = append(steps, []interface{}{"cond", "where", map[string]interface{}{"col": map[string]interface{}{"col": "`id`", "kind": "in", "val": 1, "id": 1}}})
+					}
+					steps = append(steps, []interface{}{"fin", "delete", none, false})
+					ops = append(ops, []interface{}{"stmt.run", softJ, none, allow != "off", steps})
+				default:
+					// the deleted value's key; the statement's Model (if any) is key-less
+					steps = append(steps, []interface{}{"fin", "delete", keyJ, false})
+					ops = append(ops, []interface{}{"stmt.run", softJ, none, allow != "off", steps})
+				}
+			} else if fin.Place == "value" {
+				// Updates(&keyed) without Model: the updating value IS the statement's Model (Dest == Model), its key counts
+				steps = append(steps, []interface{}{"fin", "update", keyJ, true})
+				ops = append(ops, []interface{}{"stmt.run", softJ, keyJ, allow != "off", steps})
 			} else {
-				steps = append(steps, []interface{}{"fin", "update", []interface{}{}, false})
+				steps = append(steps, []interface{}{"fin", "update", none, false})
 				ops = append(ops, []interface{}{"stmt.run", softJ, keyJ, allow != "off", steps})
 			}
 			pend = append(pend, pending{c, rejected})
@@ -555,11 +667,17 @@ func init() {
 						}
 						for _, unscoped := range []bool{false, true} {
 							for _, fin := range fins {
+								if fin.KeyedOnly && key == 0 {
+									continue
+								}
 								// no call at all, every single call
 								one(kind, pre, allow, key, unscoped, nil, fin)
 								for _, a := range calls {
 									if pre != "" && a.Step == nil && rng.Intn(3) != 0 {
 										continue
+									}
+									if key != 0 && allow != "off" && rng.Intn(4) != 0 {
+										continue // keyed AND AllowGlobalUpdate: nothing can be rejected — a sample
 									}
 									one(kind, pre, allow, key, unscoped, []c09Call{a}, fin)
 								}
@@ -568,6 +686,9 @@ func init() {
 									for _, b := range calls {
 										if tier != "thorough" && rng.Intn(330) != 0 || tier == "thorough" && rng.Intn(2) != 0 || pre != "" && rng.Intn(4) != 0 {
 											continue
+										}
+										if tier == "thorough" && key != 0 && rng.Intn(4) != 0 {
+											continue // keyed side (27 finishers with the key placements): an eighth of the pairs
 										}
 										one(kind, pre, allow, key, unscoped, []c09Call{a, b}, fin)
 									}
